@@ -103,7 +103,7 @@ pub mod verif_facade {
             if line.trim().is_empty() {
                 continue;
             }
-            println!("{}", dispatch(&line));
+            println!("@@{}", dispatch(&line));
         }
     }
 }
